@@ -30,7 +30,7 @@ class Spec:
                  inline=None, loops=None, requires=None, ensures=None, raises=None, always=None,
                  globals=None, truthy=None, class_consts=None, exc_attrs=None, local_types=None,
                  len_of=None, trusted=None, notes='', returns=None, modifies=None, tags=None, setup=None,
-                 region=None):
+                 region=None, falsy_sorts=()):
         self.prop, self.module, self.qualname, self.self_class = prop, module, qualname, self_class
         self.params = {k: parse_type(v) for k, v in (params or {}).items()}
         self.classes = {c: {f: parse_type(t) for f, t in fs.items()} for c, fs in (classes or {}).items()}
@@ -54,6 +54,7 @@ class Spec:
         self.tags = tags or []
         self.setup = setup
         self.region = region
+        self.falsy_sorts = set(falsy_sorts)
         Spec.registry.append(self)
 
     @property
